@@ -283,24 +283,34 @@ Definition require67 (ops : list pop) (md : mode) : bool :=
                     | _ => false
                     end) ops.
 
+Definition uses32 (m : meminfo) : bool := prefix_of "E" (m_base m) || prefix_of "E" (m_index m).
+
+(* after fix f9bd90c: 32-bit addressing rules whenever the registers are 32-bit ones, [EBP(+index)] has a disp8 0,
+   [index*scale(+disp)] always a disp32 *)
 Definition calc_offset_size (ops : list pop) (md : mode) : Z :=
   match first_mem ops with
   | None => 0
   | Some m =>
       if String.eqb (m_base m) "" && String.eqb (m_index m) "" then (match md with M16 => 2 | M32 => 4 end)
-      else if m_disp m =? 0 then
-        (match md with M16 => if String.eqb (m_base m) "BP" && String.eqb (m_index m) "" then 1 else 0 | M32 => 0 end)
-      else if (-128 <=? m_disp m) && (m_disp m <=? 127) then 1
-      else (match md with M16 => 2 | M32 => 4 end)
+      else
+        let addr32 := (match md with M16 => false | M32 => true end) || uses32 m in
+        if addr32 && String.eqb (m_base m) "" then 4
+        else if m_disp m =? 0 then
+          (if negb addr32 && String.eqb (m_base m) "BP" && String.eqb (m_index m) "" then 1
+           else if addr32 && String.eqb (m_base m) "EBP" then 1 else 0)
+        else if (-128 <=? m_disp m) && (m_disp m <=? 127) then 1
+        else if addr32 then 4 else 2
   end.
 
 Definition calc_sib_size (ops : list pop) (md : mode) : Z :=
-  match first_mem ops, md with
-  | Some m, M32 =>
-      let direct := String.eqb (m_base m) "" && String.eqb (m_index m) "" in
-      let ebp_noidx := String.eqb (m_base m) "EBP" && String.eqb (m_index m) "" in
-      if negb direct && negb ebp_noidx && (String.eqb (m_base m) "ESP" || negb (String.eqb (m_index m) "")) then 1 else 0
-  | _, _ => 0
+  match first_mem ops with
+  | Some m =>
+      if (match md with M16 => false | M32 => true end) || uses32 m then
+        let direct := String.eqb (m_base m) "" && String.eqb (m_index m) "" in
+        let ebp_noidx := String.eqb (m_base m) "EBP" && String.eqb (m_index m) "" in
+        if negb direct && negb ebp_noidx && (String.eqb (m_base m) "ESP" || negb (String.eqb (m_index m) "")) then 1 else 0
+      else 0
+  | None => 0
   end.
 
 (** ---------------------------------------------------------------- the FindEncoding table *)
@@ -449,50 +459,59 @@ Definition est_diag_anyway (md : mode) (mn : string) (es : list exp) : bool :=
 (* calculateModRM: returns (modrm, sib, disp bytes) *)
 Definition is32reg (s : string) : bool := mem_string s r32_names.
 
-Definition calc32 (m : meminfo) (regBits : Z) (mod0 : Z) (hasDisp0 : bool) : option (Z * Z * list Z) :=
-  let disp := m_disp m in
-  let direct := String.eqb (m_base m) "" && String.eqb (m_index m) "" in
-  let b := m_base m in
-  let i := m_index m in
-  (* first switch: rm, needsSIB, adjustments *)
-  let sw : option (Z * bool * Z * bool * Z) :=    (* rm, needsSIB, mod, hasDisp, disp *)
-    if direct then Some (5, false, 0, true, disp)
+(* 32-bit addressing.  Everything except the displacement bytes depends on the displacement only through
+   "is it zero" (mod0 / hasDisp0, computed by the caller) and "does it fit int8" (f8); that part is the SHAPE.
+   Transcribes the 32-bit half of calculateModRM after the fixes 8b99564 (explicit hasSIB) and 1f66a07
+   (no-base and EBP-base SIB forms). *)
+Record shape32 := { sh_mod : Z; sh_rm : Z; sh_sib : option Z; sh_nd : nat }.
+
+Definition nd_of (md : Z) (hasDisp : bool) : nat := if hasDisp then (if md =? 64 then 1%nat else 4%nat) else 0%nat.
+
+Definition calc32_shape (b i : string) (sc : Z) (mod0 : Z) (hasDisp0 f8 : bool) : option shape32 :=
+  let direct := String.eqb b "" && String.eqb i "" in
+  let sw : option (Z * bool * Z * bool) :=    (* rm, needsSIB, mod, hasDisp *)
+    if direct then Some (5, false, 0, true)
     else if String.eqb b "EBP" && String.eqb i "" then
-      if negb hasDisp0 then Some (5, false, 64, true, 0) else Some (5, false, mod0, hasDisp0, disp)
-    else if String.eqb b "ESP" || negb (String.eqb i "") then Some (4, true, mod0, hasDisp0, disp)
+      if negb hasDisp0 then Some (5, false, 64, true) else Some (5, false, mod0, hasDisp0)
+    else if String.eqb b "ESP" || negb (String.eqb i "") then Some (4, true, mod0, hasDisp0)
     else match index_of b r32_names 0 with
-         | Some n => Some (n, false, mod0, hasDisp0, disp)
+         | Some n => Some (n, false, mod0, hasDisp0)
          | None => None
          end in
   match sw with
   | None => None
-  | Some (rm, needsSIB, mod1, hasDisp1, disp1) =>
-      let mod2 := if hasDisp1 && (mod1 =? 0) && negb (rm =? 5) then
-                    (if (-128 <=? disp1) && (disp1 <=? 127) then 64 else 128) else mod1 in
-      if negb needsSIB then
-        let dispBytes := if hasDisp1 then (if mod2 =? 64 then [disp1 mod 256] else le 4 disp1) else [] in
-        Some (mod2 + regBits + rm, 0, dispBytes)
+  | Some (rm, needsSIB, mod1, hasDisp1) =>
+      let mod2 := if hasDisp1 && (mod1 =? 0) && negb (rm =? 5) then (if f8 then 64 else 128) else mod1 in
+      if negb needsSIB then Some {| sh_mod := mod2; sh_rm := rm; sh_sib := None; sh_nd := nd_of mod2 hasDisp1 |}
       else
-        let scale_ok := is_scale (m_scale m) || (m_scale m =? 0) in
+        let scale_ok := is_scale sc || (sc =? 0) in
         if negb scale_ok then None else
-        let scale := if m_scale m =? 2 then 64 else if m_scale m =? 4 then 128 else if m_scale m =? 8 then 192 else 0 in
+        let scale := if sc =? 2 then 64 else if sc =? 4 then 128 else if sc =? 8 then 192 else 0 in
         let idx : option Z := if String.eqb i "" then Some 4 else if String.eqb i "ESP" then None else reg_number i in
         let bas : option Z := if String.eqb b "" then Some 5 else reg_number b in
         match idx, bas with
         | Some indexNum, Some baseNum0 =>
-            let '(baseNum, hasDisp2) :=
-              if (mod2 =? 0) && (baseNum0 =? 5) then (baseNum0, true)
-              else if String.eqb b "" then (5, if mod2 =? 0 then true else hasDisp1)
-              else (baseNum0, hasDisp1) in
-            let sib := scale + indexNum * 8 + baseNum in
-            let hasDisp3 := if baseNum =? 5 then true else hasDisp2 in
-            let dispBytes := if hasDisp3 then (if mod2 =? 64 then [disp1 mod 256] else le 4 disp1) else [] in
-            Some (mod2 + regBits + rm, sib, dispBytes)
+            let '(baseNum, mod3, hasDisp2) :=
+              if String.eqb b "" then (5, 0, true)                                  (* [index*scale+disp32] *)
+              else if (baseNum0 =? 5) && (mod2 =? 0) then (baseNum0, 64, true)       (* [EBP+index*scale] -> disp8 0 *)
+              else (baseNum0, mod2, hasDisp1) in
+            Some {| sh_mod := mod3; sh_rm := rm; sh_sib := Some (scale + indexNum * 8 + baseNum); sh_nd := nd_of mod3 hasDisp2 |}
         | _, _ => None
         end
   end.
 
-Definition calc_modrm (m : meminfo) (md : mode) (regBits : Z) : option (Z * Z * list Z) :=
+(* the displacement value is 0 in every case where the Go code overwrites it with 0 (hasDisp0 = false) *)
+Definition render32 (regBits : Z) (d : Z) (sh : shape32) : Z * option Z * list Z :=
+  (sh_mod sh + regBits + sh_rm sh, sh_sib sh, le (sh_nd sh) d).
+
+Definition calc32 (m : meminfo) (regBits : Z) (mod0 : Z) (hasDisp0 : bool) : option (Z * option Z * list Z) :=
+  let d := m_disp m in
+  match calc32_shape (m_base m) (m_index m) (m_scale m) mod0 hasDisp0 ((-128 <=? d) && (d <=? 127)) with
+  | Some sh => Some (render32 regBits d sh)
+  | None => None
+  end.
+
+Definition calc_modrm (m : meminfo) (md : mode) (regBits : Z) : option (Z * option Z * list Z) :=
   let disp := m_disp m in
   let direct := String.eqb (m_base m) "" && String.eqb (m_index m) "" in
   let hasDisp := negb (disp =? 0) || direct in
@@ -521,15 +540,15 @@ Definition calc_modrm (m : meminfo) (md : mode) (regBits : Z) : option (Z * Z * 
           let mod2 := if hasDisp1 && (mod1 =? 0) && negb (rm =? 6) then
                         (if (-128 <=? disp1) && (disp1 <=? 127) then 64 else 128) else mod1 in
           let dispBytes := if hasDisp1 then (if mod2 =? 64 then [disp1 mod 256] else le 2 disp1) else [] in
-          Some (mod2 + regBits + rm, 0, dispBytes)
+          Some (mod2 + regBits + rm, None, dispBytes)
       | None =>
           if is32reg b || is32reg i then calc32 m regBits mod0 hasDisp else None
       end
   end.
 
-Definition modrm_bytes (x : Z * Z * list Z) : list Z :=
+Definition modrm_bytes (x : Z * option Z * list Z) : list Z :=
   let '(mrm, sib, disp) := x in
-  mrm :: (if sib =? 0 then [] else [sib]) ++ disp.       (* `if sibByte != 0` is the has-SIB test *)
+  mrm :: (match sib with Some s => [s] | None => [] end) ++ disp.
 
 (* the rm operand of GenerateModRM: text contains "[" and ends with "]"  <->  it is a memory operand *)
 Definition gen_modrm (ops : list pop) (spec : mreg * nat) (md : mode) : option (list Z) :=
@@ -680,7 +699,7 @@ Definition emit_push (md : mode) (st : symtab) (ops : list pop) : emit_res :=
       | PMem _ m =>
           if negb (String.eqb (m_label m) "") then diag_nothing else
           match calc_modrm m md 48 with
-          | Some (mrm, sib, disp) => Bytes (pre ++ [255; mrm] ++ (if sib =? 0 then [] else [sib]) ++ disp)
+          | Some (mrm, sib, disp) => Bytes (pre ++ [255; mrm] ++ (match sib with Some s => [s] | None => [] end) ++ disp)
           | None => diag_nothing
           end
       | PImm v =>
@@ -711,7 +730,7 @@ Definition emit_pop (md : mode) (ops : list pop) : emit_res :=
       | PMem _ m =>
           if negb (String.eqb (m_label m) "") then diag_nothing else
           match calc_modrm m md 0 with
-          | Some (mrm, sib, disp) => Bytes (pre ++ [143; mrm] ++ (if sib =? 0 then [] else [sib]) ++ disp)
+          | Some (mrm, sib, disp) => Bytes (pre ++ [143; mrm] ++ (match sib with Some s => [s] | None => [] end) ++ disp)
           | None => diag_nothing
           end
       | _ => diag_nothing
